@@ -133,7 +133,10 @@ func cmdCheck(args []string) int {
 	c.bin = *binPlain
 	c.binPlain = *binPlain
 	if _, err := os.Stat(*bin386); err == nil && !c.desc.NeedsRace {
-		c.bin386 = *bin386
+		// only if this machine can actually execute 32-bit binaries
+		if exec.Command(*bin386, "selftest", "--prop", c.id).Run() == nil {
+			c.bin386 = *bin386
+		}
 	}
 	if c.desc.NeedsRace {
 		c.bin = *binRace
